@@ -440,7 +440,8 @@ theorem childrenAll_node (bs : Builtins) (π : List Name) (g : GitCfg) (f c : Na
     | none => simp [hl] at h
     | some t => exact Or.inl (lookup_isSome_mem f bs (by simp [hl]))
   · right
-    unfold secFeatures GitCfg.get at h
+    unfold secFeatures at h
+    rw [get_section] at h
     by_cases he : g.enabled
     · simp only [he, ↓reduceIte] at h
       cases hs : lookup f g.file.sections with
@@ -450,7 +451,7 @@ theorem childrenAll_node (bs : Builtins) (π : List Name) (g : GitCfg) (f c : Na
   · right
     have hb := (List.mem_filter.mp h).2
     simp only [decide_eq_true_eq] at hb
-    unfold GitCfg.getBool at hb
+    rw [getBool_section] at hb
     by_cases he : g.enabled
     · simp only [he, ↓reduceIte] at hb
       cases hs : lookup f g.file.sections with
